@@ -14,10 +14,12 @@
 #include "hexasm.hpp"
 extern "C" {
 #include "isa.h"
+#ifndef NO_EXTRACTED
 int X_numNibbles(int v);
 size_t X_getSize(int v);
 size_t X_emit(int tok_index, int v, size_t size, uint8_t *dst);
 int X_parse_literal(int minus, unsigned long n);
+#endif
 }
 
 static const char *MN[12] = {"LDAM", "LDBM", "STAM", "LDAC", "LDBC", "LDAP", "LDAI", "LDBI", "STAI", "BR", "BRZ", "BRN"};
@@ -93,6 +95,41 @@ int main(int argc, char **argv) {
     int64_t expected = neg ? -(int64_t)n : (int64_t)n;
     return doReplay(argv[2], lit, true, expected);
   }
+  if (argc >= 2 && !strcmp(argv[1], "literals")) {
+    // boundary literals in both spellings through the real Lexer/Parser/CodeGen, decoded with the ISA rule
+    std::vector<std::pair<std::string, int64_t>> lits;
+    for (int k = 0; k <= 8; k++) {
+      int64_t p = 1LL << (4 * k);
+      for (int64_t d = -2; d <= 2; d++) {
+        int64_t v = p + d;
+        if (v >= 0 && v <= 4294967295LL) lits.push_back({std::to_string(v), v});
+        if (v >= 0 && v <= 2147483648LL) lits.push_back({"-" + std::to_string(v), -v});
+      }
+    }
+    for (int64_t v : {2147483646LL, 2147483647LL, 2147483648LL, 2147483649LL, 4294967294LL, 4294967295LL, 3000000000LL, 65535LL, 65536LL, 65537LL}) lits.push_back({std::to_string(v), v});
+    for (int64_t v : {2147483647LL, 2147483648LL, 65536LL, 255LL, 256LL}) lits.push_back({"-" + std::to_string(v), -v});
+    long bad = 0, n = 0; std::string firstLit, firstMn;
+    for (size_t i = 0; i < lits.size(); i++) {
+      const char *mn = MN[i % 12];
+      n++;
+      bool ok = false;
+      try {
+        hexasm::Lexer lexer; hexasm::Parser parser(lexer);
+        // a preceding instruction with a different literal: a stale lexer value must not leak into the next number
+        lexer.loadBuffer(std::string("LDAC 9\n") + mn + " " + lits[i].first + "\n");
+        auto program = parser.parseProgram();
+        hexasm::CodeGen codeGen(program);
+        std::ostringstream bin; codeGen.emitProgramBin(bin); std::string img = bin.str();
+        size_t off = program[1]->getByteOffset(), sz = program[1]->getSize();
+        unsigned opc = 0; uint32_t val = 0;
+        ok = sz >= 1 && sz <= 8 && off + sz <= img.size() && isa_decode_prefix(reinterpret_cast<const uint8_t *>(img.data()) + off, sz, &opc, &val) && opc == OPC[i % 12] && val == (uint32_t)lits[i].second;
+      } catch (std::exception &) { ok = false; }
+      if (!ok) { if (!bad) { firstLit = lits[i].first; firstMn = mn; } bad++; }
+    }
+    printf("{\"checked\": %ld, \"bad\": %ld, \"first_literal\": \"%s\", \"first_token\": \"%s\"}\n", n, bad, firstLit.c_str(), firstMn.c_str());
+    return bad ? 1 : 0;
+  }
+#ifndef NO_EXTRACTED
   if (argc >= 4 && !strcmp(argv[1], "fidelity")) {
     std::mt19937_64 rng(strtoull(argv[2], nullptr, 10));
     long n = atol(argv[3]);
@@ -136,6 +173,7 @@ int main(int argc, char **argv) {
     printf("{\"compared\": %ld, \"mismatches\": %ld, \"first\": \"%s\"}\n", cnt, mism, first.c_str());
     return mism ? 1 : 0;
   }
+#endif
   if (argc >= 4 && !strcmp(argv[1], "sweep")) {
     uint64_t lo = strtoull(argv[2], nullptr, 10), hi = strtoull(argv[3], nullptr, 10);
     uint64_t checked = 0, bad = 0; int firstV = 0; int firstT = 0;
